@@ -17,11 +17,15 @@
                      (C06_never_stuck); the two capacity-1 channels are written at most once per entry (Proofs/SysEntry),
                      which is why [e_add]/[e_fail] never block;
      deadline      — when the clock reaches the deadline every held HTLC is answered (C06_answered_at_deadline).
-   PARTIAL: "eventually" is stated as the absence of stuck states, not as a termination measure; RPC errors on reads are
+     eventually    — from EVERY reachable state and for EVERY held HTLC there is a finite, crash-free continuation by
+                     contract-respecting events (the node answers the outstanding RPCs, pending parts resolve, the pay command
+                     ends, time passes) in which that HTLC is answered (C06_every_held_htlc_is_answered): no reachable state is a
+                     trap, whatever happened before (faults, crashes, overtaking HTLCs, several lifecycles).
+   PARTIAL: "eventually" is AG EF (a continuation exists from everywhere), not AF over all fair schedules; RPC errors on reads are
    the known-finding class kf_read_error (stored Pending + error from wait_payment reaches a todo!(): KF-A), excluded by
    [hist_wf]; thread scheduling and real time are runtime (the correspondence runs the real handler deterministically). *)
 From Tramp Require Import Model.Base Model.Fee Model.Classify Model.Node Model.Provider Model.ProviderSys Model.Sys.
-From Tramp Require Import Proofs.SysBasics Proofs.SysShape Proofs.SysTheorems Proofs.SysTimers Proofs.SysReach Proofs.SysCalls Proofs.SysNode Proofs.SysSafety.
+From Tramp Require Import Proofs.SysBasics Proofs.SysShape Proofs.SysTheorems Proofs.SysTimers Proofs.SysReach Proofs.SysCalls Proofs.SysNode Proofs.SysSafety Proofs.SysLive.
 
 Theorem C06_held_or_answered : forall c s h,
   (exists en, entry_ (pl (fst (step c s (EvHtlc h)))) = Some en /\ In h (listeners en)) \/
@@ -63,6 +67,12 @@ Theorem C06_answered_at_deadline : forall c s dt en i x dl,
   resps (snd (step c s (EvTick dt))) = map (fun h => OResp (hid h) r_tramp_fail) (listeners en) /\
   entry_ (pl (fst (step c s (EvTick dt)))) = None.
 Proof. intros c s dt en i x dl He Hx Hp Hd. destruct (tick_at_deadline c s dt en i x dl He Hx Hp Hd) as (A & B & _). auto. Qed.
+
+Theorem C06_every_held_htlc_is_answered : forall c n t0 h0 a0 evs en h,
+  node_ok n -> hist_wf c (sys_start n t0 h0 a0) evs ->
+  let s := after c n t0 h0 a0 evs in
+  entry_ (pl s) = Some en -> In h (listeners en) -> Answered c (hid h) s.
+Proof. intros c n t0 h0 a0 evs en h Hn Hwf. exact (held_htlc_is_answered c _ en h (after_wreach c n t0 h0 a0 evs Hn Hwf)). Qed.
 
 (* non-vacuity: an HTLC is held, its lifecycle awaits the live state fetch *)
 Example C06_nonvacuous :
